@@ -270,6 +270,15 @@ Inv_C07_Judged           == verdict.c07judged
 Inv_C14      == verdict.c14
 Inv_C14_Last == verdict.c14last
 Inv_NoCrash  == verdict.nocrash
+(* C11 on the model: one behaviour per history - the topology is unique and    *)
+(* the next transition has exactly one way to queue its auto mutation          *)
+Inv_C11 ==
+  /\ Cardinality(TopoSet(sch, idx)) = 1
+  /\ (running /\ queue # <<>>) =>
+       LET r == RunTxF(Fx, sch, idx, topo, hs,
+                       [active |-> active, clock |-> clock, wedged |-> wedged], Head(queue),
+                       [veto |-> veto, pan |-> pan, stall |-> stall])
+       IN Cardinality(AutoOrders(r.autoSet)) = 1
 Inv_NoHang   == verdict.nohang
 Inv_C08      == verdict.c08
 =============================================================================
